@@ -21,7 +21,7 @@ from harness import core
 
 OFF = -999999
 INV_S = 1 << 16
-SUBS = [2, 3, 5, 6, 7, 8, 9, 10, 11, 12, 13, 14, 15, 16, 17, 18, 19, 20, 21, 22, 23, 24, 25, 26]  # sub size of scheme id k is SUBS[k-1]
+SUBS = [2, 3] + list(range(5, 70))  # sub size of scheme id k is SUBS[k-1] (never 4, the library's default for pixelizations)
 TICKS = [1.0, 0.5, 0.25, 2.0, 0.125, 0.05, 0.1, 1.0 / 3.0]
 ACT_FIELDS = ("a", "mh", "mw", "m", "req", "mode", "nval", "snr", "zero", "kh", "kw")
 BLANK = {"a": "none", "mh": 0, "mw": 0, "m": [], "req": [0, 0, 0], "mode": "value", "nval": 0, "snr": 1, "zero": False, "kh": 1, "kw": 1}
@@ -29,12 +29,13 @@ BLANK = {"a": "none", "mh": 0, "mw": 0, "m": [], "req": [0, 0, 0], "mode": "valu
 MC_CFG = """CONSTANTS
   Insts <- MCInsts
   FullCells = {full}
-  FullRegions = {fullr}
   FamMasks <- MCFamMasks
   FamRegions <- MCFamRegions
   Requests <- MCRequests
+  RequestsLean <- MCRequestsLean
   TrimKernels <- MCTrim
   ScaleModes <- MCModes
+  ScaleModesLean <- MCModesLean
   Geoms <- MCGeoms
 SPECIFICATION Spec
 INVARIANT StateIsFoldOfHistory
@@ -51,12 +52,13 @@ PROPERTY OverSamplingKeepsTheRest
 TRACE_CFG = """CONSTANTS
   Insts <- TrInsts
   FullCells = 0
-  FullRegions = 0
   FamMasks = {}
   FamRegions = {}
   Requests = {}
+  RequestsLean = {}
   TrimKernels = {}
   ScaleModes = {}
+  ScaleModesLean = {}
   Geoms = {}
 SPECIFICATION TraceSpec
 POSTCONDITION TraceAccepted
@@ -84,7 +86,7 @@ def tla(v):
     raise TypeError(type(v))
 
 
-MACHINE_FIELDS = ("kind", "h", "w", "u0", "dv", "nv", "kh", "kw", "norm", "pad", "check", "os", "hasC", "depth")
+MACHINE_FIELDS = ("kind", "h", "w", "u0", "dv", "nv", "kh", "kw", "norm", "pad", "check", "os", "hasC", "depth", "fullr", "lean")
 
 
 # ------------------------------------------------------------------------------------------------------------------
@@ -118,11 +120,11 @@ def covariance(n):
 
 
 def make_ini(rng, h, w, depth, kind="img", psf=(0, 0), norm=True, pad=False, check=True, os=(0, 0, 0), hasC=False, u0=None,
-             bad_noise=None, store=None):
+             bad_noise=None, store=None, fullr=2, lean=True, positive=False):
     n = h * w
     mags = rng.permutation(n) + 1
-    dv = [int(4 * m * (1 if rng.random() < 0.6 else -1)) for m in mags]
-    if n > 3 and rng.random() < 0.3:
+    dv = [int(4 * m * (1 if positive or rng.random() < 0.6 else -1)) for m in mags]
+    if n > 3 and not positive and rng.random() < 0.3:
         dv[int(rng.integers(0, n))] = 0
     nv = [int(x) for x in (rng.permutation(15)[:n] + 1 if n <= 15 else rng.integers(1, 16, size=n))]
     if bad_noise is not None:
@@ -131,7 +133,7 @@ def make_ini(rng, h, w, depth, kind="img", psf=(0, 0), norm=True, pad=False, che
     g = {"hy": int(rng.integers(1, 4)), "hx": int(rng.integers(1, 4)), "oy": int(rng.integers(-3, 4)), "ox": int(rng.integers(-3, 4))}
     ini = {"kind": kind, "h": h, "w": w, "u0": list(range(n)) if u0 is None else sorted(int(x) for x in u0), "dv": dv, "nv": nv,
            "kh": int(psf[0]), "kw": int(psf[1]), "norm": bool(norm), "pad": bool(pad), "check": bool(check), "os": [int(x) for x in os],
-           "hasC": bool(hasC), "depth": int(depth),
+           "hasC": bool(hasC), "depth": int(depth), "fullr": int(fullr), "lean": bool(lean),
            # gamma parameters (not part of the machine's instance)
            "g": g, "kv": kv, "ksum": ksum, "subs": SUBS, "cv": covariance(n) if hasC else [], "invS": INV_S,
            "ue": int(rng.integers(-3, 4)), "ke": int(rng.integers(1, 4)), "ce": int(rng.integers(-2, 3)), "tau": int(rng.integers(0, len(TICKS))),
@@ -148,42 +150,52 @@ def make_ini(rng, h, w, depth, kind="img", psf=(0, 0), norm=True, pad=False, che
 
 
 def instances(rng, quick):
-    """the constructor instances of the bounded machine: every dimension of the constructor is met on the 2x2 frame at depth 2,
-    tiny frames go deeper, the larger frames of the thorough tier shallower"""
+    """the constructor instances of the bounded machine: every dimension of the constructor is met on the 2x2 frame (every mask; at
+    depth 2 with the rich alphabets -- every subset of schemes in a request, every region -- in the thorough tier), the tiniest
+    frames go deeper with the lean alphabets, larger and non-square frames shallower"""
     out = []
-    d22 = 2 if quick else 3
-    # 2x2: PSF shapes x flags (not the full product: each dimension against a varying background)
-    out.append(make_ini(rng, 2, 2, d22, psf=(0, 0), os=(0, 0, 0), hasC=True))
-    out.append(make_ini(rng, 2, 2, 3, psf=(3, 3), os=(1, 0, 2), hasC=True))
-    out.append(make_ini(rng, 2, 2, 2, psf=(1, 3), os=(0, 1, 0), norm=False))
-    out.append(make_ini(rng, 2, 2, 2, psf=(3, 1), os=(1, 2, 3), pad=True))
-    out.append(make_ini(rng, 2, 2, 2, psf=(1, 1), os=(1, 1, 0), check=False, bad_noise=0))
-    out.append(make_ini(rng, 2, 2, 2, psf=(3, 3), os=(0, 0, 1), check=False, bad_noise=-2, hasC=True))
+    rich = dict(fullr=4, lean=False)
+    r2 = {} if quick else rich
+    # 2x2, depth 2: PSF shapes x constructor flags (not the full product: each dimension against a varying background)
+    out.append(make_ini(rng, 2, 2, 2, psf=(0, 0), os=(0, 0, 0), hasC=True, **rich))
+    out.append(make_ini(rng, 2, 2, 2, psf=(1, 3), os=(0, 1, 0), norm=False, **r2))
+    out.append(make_ini(rng, 2, 2, 2, psf=(3, 1), os=(1, 2, 3), pad=True, **r2))
+    out.append(make_ini(rng, 2, 2, 2, psf=(1, 1), os=(1, 1, 0), check=False, bad_noise=0, **r2))
+    out.append(make_ini(rng, 2, 2, 2, psf=(3, 3), os=(0, 0, 1), check=False, bad_noise=-2, hasC=True, **r2))
     out.append(make_ini(rng, 2, 2, 1, psf=(1, 3), check=True, bad_noise=0))          # the constructor raises
     out.append(make_ini(rng, 2, 2, 2, psf=(3, 3), u0=[0, 3], pad=True, os=(0, 2, 1)))  # data given masked, padded at construction
     out.append(make_ini(rng, 2, 2, 2, psf=(0, 0), u0=[1, 2, 3], os=(1, 0, 0)))        # data given masked
+    # 2x2, depth 3 (lean alphabets, regions from the family): thorough tier
+    if not quick:
+        out.append(make_ini(rng, 2, 2, 3, psf=(3, 3), os=(1, 0, 2), hasC=True))
+        out.append(make_ini(rng, 2, 2, 3, psf=(0, 0), os=(0, 0, 0), hasC=True))
+        out.append(make_ini(rng, 2, 2, 3, psf=(1, 3), os=(0, 1, 0), pad=True))
     # 1x2 / 2x1 / 1x1: deeper
     dd = 3 if quick else 4
     out.append(make_ini(rng, 1, 2, dd, psf=(1, 3), os=(1, 0, 0), hasC=True))
     out.append(make_ini(rng, 2, 1, dd, psf=(3, 1), os=(0, 0, 0)))
     out.append(make_ini(rng, 1, 2, dd, psf=(0, 0), os=(0, 1, 2), check=False, bad_noise=-1))
     out.append(make_ini(rng, 1, 1, dd, psf=(3, 3), os=(0, 0, 1), hasC=True))
+    if not quick:
+        out.append(make_ini(rng, 2, 1, 3, psf=(3, 3), os=(1, 0, 2), hasC=True, norm=False))
     # 3x3 (trimmable without padding) and non-square frames
     out.append(make_ini(rng, 3, 3, 1 if quick else 2, psf=(3, 3), os=(1, 0, 0), hasC=not quick))
     out.append(make_ini(rng, 1, 3, 2, psf=(1, 3), os=(0, 0, 2), hasC=True))
+    # 5x5: the smallest frame with a noise-scaling region that has an interior (the edge of the region is not the region)
+    out.append(make_ini(rng, 5, 5, 1 if quick else 2, psf=(3, 3), os=(0, 1, 0), positive=True, fullr=0))
     if not quick:
         out.append(make_ini(rng, 2, 3, 2, psf=(3, 1), os=(0, 1, 0), hasC=True))
         out.append(make_ini(rng, 3, 2, 2, psf=(1, 3), os=(2, 0, 1), norm=False))
         out.append(make_ini(rng, 3, 3, 2, psf=(0, 0), os=(0, 0, 0)))
         out.append(make_ini(rng, 3, 1, 3, psf=(3, 1), os=(1, 0, 0), hasC=True))
-    # Interferometer: every real-space mask of a 2x2 frame (1x3 in addition in the thorough tier)
+    # Interferometer: every real-space mask of a 2x2 frame (1x3 and part of 2x3 in addition in the thorough tier)
     frames = [(2, 2)] if quick else [(2, 2), (1, 3), (2, 3)]
     for h, w in frames:
         for r in range(1, h * w + 1):
             for u in itertools.combinations(range(h * w), r):
                 if (h, w) == (2, 3) and rng.random() < 0.6:
                     continue
-                out.append(make_ini(rng, h, w, 2 if h * w <= 4 else 1, kind="interf", u0=list(u),
+                out.append(make_ini(rng, h, w, 2 if h * w <= 4 else 1, kind="interf", u0=list(u), lean=quick,
                                     os=[(0, 0, 0), (1, 0, 0), (0, 1, 2), (1, 2, 3)][int(rng.integers(0, 4))]))
     return out
 
@@ -201,6 +213,9 @@ def families(rng, quick):
             if m:
                 seen.add(m)
         fm += [{"h": h, "w": w, "m": set(m)} for m in sorted(seen)]
+    block = lambda h, w, y0, y1, x0, x1: {"h": h, "w": w, "m": {i * w + j for i in range(y0, y1) for j in range(x0, x1)}}  # noqa: E731
+    fm += [block(5, 5, 1, 4, 1, 4), block(5, 5, 0, 5, 0, 5), block(5, 5, 2, 3, 2, 3), block(5, 5, 0, 2, 1, 5), block(5, 5, 1, 4, 0, 3)]
+    fr += [block(5, 5, 1, 4, 1, 4), block(5, 5, 0, 5, 0, 5), block(5, 5, 2, 4, 1, 3), block(5, 5, 0, 0, 0, 0), block(5, 5, 1, 4, 1, 3)]
     for (h, w), k in (((2, 2), 5), ((3, 3), 4 if quick else 12), ((2, 3), 6), ((3, 2), 6), ((1, 3), 4), ((3, 1), 4), ((1, 2), 3), ((2, 1), 3)):
         n = h * w
         seen = {(), tuple(range(n))}
@@ -508,7 +523,7 @@ def observe(c, ds):
 
 
 def trace_ini(ini):
-    return {k: v for k, v in ini.items() if k not in ("depth",)}
+    return {k: v for k, v in ini.items() if k not in ("depth", "fullr", "lean")}
 
 
 def node_record(c, steps, fl, o, mode, only=""):
@@ -759,42 +774,46 @@ def leaves(t, prefix=()):
 
 
 def run(ctx):
+    import time
+
+    t0 = time.time()
     quick = ctx.quick
     rng = np.random.default_rng(ctx.seed)
     insts = instances(rng, quick)
     fm, fr = families(rng, quick)
     full = 4 if quick else 6
-    fullr = 2 if quick else 4
-    requests = [(True, False, False), (False, False, True), (False, True, True), (False, False, False)]
-    if not quick:
-        requests += [(False, True, False), (True, True, True)]
-    modes = [{"mode": "value", "zero": True, "snr": 1}, {"mode": "snr", "zero": False, "snr": 2}]
-    if not quick:
-        modes += [{"mode": "value", "zero": False, "snr": 1}, {"mode": "snr", "zero": True, "snr": 1}]
+    requests_lean = [(True, False, False), (False, False, True), (False, True, True), (False, False, False)]
+    requests = [tuple(bool(x) for x in q) for q in itertools.product((False, True), repeat=3)]  # any subset of schemes given
+    modes_lean = [{"mode": "value", "zero": True, "snr": 1}, {"mode": "snr", "zero": False, "snr": 2}]
+    modes = modes_lean + ([] if quick else [{"mode": "value", "zero": False, "snr": 1}, {"mode": "snr", "zero": True, "snr": 1}])
     trims = [(3, 1), (1, 3), (3, 3)]
     defs = "\n".join([
         "MCInsts == " + tla([{k: i[k] for k in MACHINE_FIELDS} for i in insts]),
         "MCFamMasks == " + tla(set()) if not fm else "MCFamMasks == {" + ", ".join(tla(x) for x in fm) + "}",
         "MCFamRegions == {" + ", ".join(tla(x) for x in fr) + "}",
         "MCRequests == {" + ", ".join(tla(list(q)) for q in requests) + "}",
+        "MCRequestsLean == {" + ", ".join(tla(list(q)) for q in requests_lean) + "}",
         "MCTrim == {" + ", ".join(tla(list(k)) for k in trims) + "}",
         "MCModes == {" + ", ".join(tla(m) for m in modes) + "}",
+        "MCModesLean == {" + ", ".join(tla(m) for m in modes_lean) + "}",
         "MCGeoms == {" + ", ".join(tla(g) for g in ({"hy": 1, "hx": 1, "oy": 0, "ox": 0}, {"hy": 2, "hx": 3, "oy": -1, "ox": 5})) + "}",
     ])
-    res = ctx.tlc("DatasetGrids", MC_CFG.format(full=full, fullr=fullr), defs=defs, tag="MC_DatasetGrids", timeout=3000, coverage=False,
+    res = ctx.tlc("DatasetGrids", MC_CFG.format(full=full), defs=defs, tag="MC_DatasetGrids", timeout=3000, coverage=quick,
                   env={"_JAVA_OPTIONS": "-Xmx8g"})
     dumped = res.by_kind("inst")
     if res.init_states != len(insts) or len(dumped) != res.distinct - len(insts):
         raise core.MachineryError(f"DatasetGrids.tla: {res.init_states} initial states for {len(insts)} instances, {len(dumped)} histories dumped "
                                   f"for {res.distinct} states")
+    t1 = time.time()
     trees, _ = build_trees(insts, dumped)
     nnodes = sum(count_nodes(t) for t in trees)
     if nnodes != len(dumped):
         raise core.MachineryError(f"history tree has {nnodes} nodes, the machine dumped {len(dumped)}")
     ctx.exhaustive = True
     ctx.bounds = {"instances": len(insts), "imaging_instances": sum(i["kind"] == "img" for i in insts),
-                  "frames_depths": sorted({(i["h"], i["w"], i["depth"], i["kind"]) for i in insts}),
-                  "every_mask_up_to_cells": full, "every_region_up_to_cells": fullr, "requests": requests, "scale_modes": modes,
+                  "frames_depths_alphabets": sorted({(i["h"], i["w"], i["depth"], i["kind"], "lean" if i["lean"] else "rich") for i in insts}),
+                  "every_mask_up_to_cells": full, "every_region_up_to_cells_rich_lean": [4, 2], "requests_rich": len(requests),
+                  "requests_lean": requests_lean, "scale_modes_rich": modes, "scale_modes_lean": modes_lean,
                   "trim_kernels": trims, "derivation_sequences": len(dumped)}
     # S -> C: replay every node, one task per (instance, first step) subtree (the root is read first in every task)
     tasks = []
@@ -836,7 +855,9 @@ def run(ctx):
     ctx.bounds.update({"cold_replays": n_cold, "random_histories": nrand, "random_nodes": n_rand, "random_max_frame": "9x9", "psf_probes": len(probes)})
     ctx.sample({k: v for k, v in recs[len(insts) + 3].items() if k != "ini"} if len(recs) > len(insts) + 3 else recs[0])
     ctx.sample({"ini": recs[-len(probes) - 1]["ini"], "steps": recs[-len(probes) - 1]["steps"]})
+    t2 = time.time()
     rejects, unjudged = validate(ctx, recs, "X13")
+    ctx.note(f"phases: TLC enumeration {t1 - t0:.1f}s, replay into the real API {t2 - t1:.1f}s, trace validation {time.time() - t2:.1f}s")
     machine_unjudged = [k for k in unjudged if k < n_machine + n_cold]
     if machine_unjudged:
         raise core.MachineryError(f"{len(machine_unjudged)} nodes enumerated by the machine were not judged by the trace specification "
